@@ -244,7 +244,7 @@ def gen_desc(rng, n=None):
         got = sorted(set(t for d in r["deps"] if "tools" in (d["use"] or []) and d["if"] is None
                          for t in tool_prov.get(d["name"], [])))
         for t in TOOLS:
-            p = 0.6 if t in got else 0.02
+            p = 0.6 if t in got else 0.0
             if rng.random() < p:
                 r[rng.choice(["buildTools", "buildToolsWeak", "packageTools", "packageToolsWeak"])].append(t)
         if rng.random() < 0.3:
